@@ -48,7 +48,7 @@ def replay_conc(run, cases, prefixes, shards=8):
             if os.path.exists(p):
                 os.remove(p)
         r = vlib.run_bin(binp, ["-test.run", "^TestReplay$", "-test.timeout", "3000s", "-test.count", "1"],
-                         env_extra={"VH_CASES": cp, "VH_OUT": op, "VH_TRACE": tp, "GOLOG_LOG_LEVEL": "fatal"}, timeout=3100)
+                         env_extra={"VH_CASES": cp, "VH_OUT": op, "VH_TRACE": tp, "GOLOG_LOG_LEVEL": "error"}, timeout=3100)
         recs = vlib.read_ndjson(op)
         if r.returncode != 0:
             raise vlib.Inconclusive("conch driver failed:\n" + (r.stdout[-2500:] + r.stderr[-2500:]))
@@ -139,7 +139,7 @@ def stress(run, runs, procs=8):
             os.remove(tp)
         r = vlib.run_bin(binp, ["-test.run", "^TestStress$", "-test.timeout", "3000s", "-test.count", "1"],
                          env_extra={"VH_TRACE": tp, "VH_RUNS": per, "VH_IDBASE": i * per, "VERIF_SEED": vlib.seed(),
-                                    "GOLOG_LOG_LEVEL": "fatal", "GORACE": "halt_on_error=0 exitcode=0"}, timeout=3100)
+                                    "GOLOG_LOG_LEVEL": "error", "GORACE": "halt_on_error=0 exitcode=0"}, timeout=3100)
         races = (r.stdout + r.stderr).count("WARNING: DATA RACE")
         if r.returncode != 0:
             tail = r.stdout[-2500:] + r.stderr[-2500:]
